@@ -181,6 +181,18 @@ pub fn deserialize_range_proof<'de, D: Deserializer<'de>>(
             bulletproofs::RangeProof::from_bytes(v)
                 .map_err(|_| serde::de::Error::custom("invalid range proof"))
         }
+
+        // formats without a byte-string type (JSON) write the bytes as a sequence
+        fn visit_seq<A>(self, mut seq: A) -> Result<Self::Value, A::Error>
+        where
+            A: SeqAccess<'de>,
+        {
+            let mut bytes = Vec::with_capacity(seq.size_hint().unwrap_or(0).min(4096));
+            while let Some(b) = seq.next_element::<u8>()? {
+                bytes.push(b);
+            }
+            self.visit_bytes(&bytes)
+        }
     }
 
     d.deserialize_bytes(RangeProofVisitor)
